@@ -259,6 +259,32 @@ def run(ctx):
     # endpoint layer: nothing but release_event after the sender's finishing transition returned
     from .c07 import endpoint_no_use_after_finish
     endpoint_no_use_after_finish(ctx, prog, "R3.no-access-after-handover", "events_once::core::sync::Event::")
+    from .c07 import endpoint_receiver_drop
+    endpoint_receiver_drop(ctx, prog, "R4.release-discipline", "events_once::core::sync::Event::", "sync_receiver::ReceiverCore")
+    # every release_event impl: nothing touches the event (self) after the storage has been given back
+    for b in prog.bodies:
+        if b.name != "release_event" or b.is_closure or "sync_refs" not in b.key and "sync" not in b.key:
+            continue
+        if "local" in b.key:
+            continue
+        frees = [(bb, t) for bb, t in b.calls() if not b.blocks[bb].cleanup and (
+            callee_key(t["callee"]).endswith(("alloc::dealloc", "Box::from_raw", "mem::drop", "ptr::drop_in_place", "destroy_event", "remove", "remove_unpin", "release"))
+            or t["callee"].get("method") in ("dealloc", "destroy_event"))]
+        frees += [(blk.idx, blk.term) for blk in b.blocks if blk.term["k"] == "drop" and not blk.cleanup and "Box<" in blk.term["ty"]["s"] and "Event" in blk.term["ty"]["s"]]
+        if not frees:
+            continue
+        ctx.fn(b)
+        late = []
+        for fb, _t in frees:
+            for x in sorted(b.successors_reach(fb, unwind=False)):
+                tt = b.blocks[x].term
+                if tt["k"] == "call" and not b.blocks[x].cleanup and tt["args"]:
+                    for o in tt["args"]:
+                        if 1 in Slice(b).run(o)["args"] and (x, tt) not in frees:
+                            late.append(f"{callee_key(tt['callee']).split('::')[-1]}@{b.loc(tt['span'])}")
+                            break
+        ctx.ob("R5.storage-strategies", f"{b.impl_self or b.key}.nothing-after-free", not late, b.loc(),
+               f"calls on the event reference after the storage was given back: {sorted(set(late)) or 'none'}")
 
     # ---------------- rules shared with C05 (anchored in the same functions of core/sync.rs)
     ctx.import_rules("C05", {
